@@ -34,6 +34,7 @@
 #include <AIToolbox/Factored/Bandit/Experience.hpp>
 #include <AIToolbox/Factored/Bandit/Policies/LLRPolicy.hpp>
 #include <AIToolbox/Factored/Bandit/Policies/MAUCEPolicy.hpp>
+#include <AIToolbox/Factored/Bandit/Policies/MARMaxPolicy.hpp>
 #include <AIToolbox/Factored/Bandit/Policies/ThompsonSamplingPolicy.hpp>
 #include <AIToolbox/Factored/MDP/Policies/QGreedyPolicy.hpp>
 #include <AIToolbox/Factored/MDP/Policies/EpsilonPolicy.hpp>
@@ -549,6 +550,16 @@ static void emit_sr(Rng & rng, size_t n, unsigned budget, int k, double base = 0
     l << "|" << nk1; l.tok(out.os.str()); l.emit();
 }
 
+// per-joint-action queries over the whole joint space: P(a) = (1-eps) [a = greedy] + eps / |space|  (eps = 0: deterministic, 1: uniform)
+static void fprob_line(const char * comp, const F::Action & A, const FB::PolicyInterface & pol, double eps, const F::Action & gact, int ns) {
+    size_t m = A.size();
+    Line l; l << "C09" << "fprob" << comp << m; for (auto a : A) l << a; l << eps; for (auto a : gact) l << a;
+    size_t np = 1; for (auto a : A) np *= a; l << np;
+    F::PartialFactorsEnumerator e(A);
+    while (e.isValid()) { F::Action a = (*e).second; for (auto x : a) l << x; l << pol.getActionProbability(a); e.advance(); }
+    l << ns; for (int i = 0; i < ns; ++i) { auto a = pol.sampleAction(); for (auto x : a) l << x; }
+    l.emit();
+}
 static const double kEpsF[] = {0.0, 1.0, 0.5, 0.125, 0.1, 0.3};
 // ---- factored bandit wrappers: joint action in range; greedy: optimal by brute force
 static void emit_factored(Rng & rng) {
@@ -573,15 +584,7 @@ static void emit_factored(Rng & rng) {
     };
     FB::QGreedyPolicy<> g(A, fm);
     line("Factored::Bandit::QGreedyPolicy", g.sampleAction(), true);
-    // per-joint-action queries over the whole joint space: P(a) = (1-eps) [a = greedy] + eps / |space|  (eps = 0: deterministic, 1: uniform)
-    auto fprob = [&](const char * comp, const FB::PolicyInterface & pol, double eps, const F::Action & gact, int ns) {
-        Line l; l << "C09" << "fprob" << comp << m; for (auto a : A) l << a; l << eps; for (auto a : gact) l << a;
-        size_t np = 1; for (auto a : A) np *= a; l << np;
-        F::PartialFactorsEnumerator e(A);
-        while (e.isValid()) { F::Action a = (*e).second; for (auto x : a) l << x; l << pol.getActionProbability(a); e.advance(); }
-        l << ns; for (int i = 0; i < ns; ++i) { auto a = pol.sampleAction(); for (auto x : a) l << x; }
-        l.emit();
-    };
+    auto fprob = [&](const char * comp, const FB::PolicyInterface & pol, double eps, const F::Action & gact, int ns) { fprob_line(comp, A, pol, eps, gact, ns); };
     {
         auto gact = g.sampleAction();
         fprob("Factored::Bandit::QGreedyPolicy", g, 0.0, gact, 1);
@@ -706,6 +709,38 @@ static void emit_factored_learners(Rng & rng) {
         auto act = p.sampleAction();
         Line l; l << "C09" << "joint" << "Factored::Bandit::MAUCEPolicy" << m; for (auto a : A) l << a; for (auto a : act) l << a; l << false << 0.0 << 0.0; l.emit();
     }
+    {   // MARMax / MAVMax: deterministic; plays the maximiser of the (optimistic) value tables, which are recomputed here with the
+        // library's expressions after every stepUpdateQ.  Joint action optimal by brute force; queries = indicator of that action.
+        reseed();
+        FB::Experience ex2(A, deps);
+        AI::Vector ranges(deps.size()); for (long i = 0; i < ranges.size(); ++i) ranges[i] = (double)rng.range(1, 4);
+        bool optimistic = rng.coin();
+        FB::MARMaxPolicy p(ex2, ranges, rng.coin() ? 0.5 : 0.25, 0.5, optimistic);
+        const double mm = p.getM();
+        std::vector<std::vector<double>> vals(deps.size());
+        for (size_t i = 0; i < deps.size(); ++i) vals[i].assign(ex2.getRewardMatrix().bases[i].values.size(), ranges[i]);
+        F::Rewards rew(deps.size());
+        int steps = (int)rng.range(1, 12);
+        double base = std::fabs(fcentre) < 4 ? 0.0 : fcentre;
+        for (int t = 0; t < steps; ++t) {
+            F::Action a = rng.coin(2, 3) ? p.sampleAction() : F::Action(A.size(), 0);
+            if (rng.coin(1, 4)) for (size_t i = 0; i < A.size(); ++i) a[i] = rng.below(A[i]);
+            for (size_t i = 0; i < deps.size(); ++i) rew[i] = base + (double)rng.range(-8, 8) / 4.0;
+            const auto & ind = ex2.record(a, rew);
+            p.stepUpdateQ(ind);
+            for (size_t i = 0; i < ind.size(); ++i) {
+                const auto id = ind[i]; const double n = ex2.getVisitsTable()[i][id], qv = ex2.getRewardMatrix().bases[i].values[id];
+                if (n >= mm) vals[i][id] = qv; else if (optimistic) vals[i][id] = (n * qv + (mm - n) * ranges[i]) / mm;
+            }
+        }
+        std::vector<LocalRule> rules;
+        for (size_t i = 0; i < deps.size(); ++i) for (size_t y = 0; y < vals[i].size(); ++y)
+            rules.push_back({deps[i], F::toFactorsPartial(deps[i], A, y), vals[i][y]});
+        auto act = p.sampleAction();
+        fjoint_line("Factored::Bandit::MARMaxPolicy", A, rules, act);
+        fprob_line("Factored::Bandit::MARMaxPolicy", A, p, 0.0, act, 1);
+        std::printf("#stat marmax_%s 1\n", optimistic ? "optimistic" : "plain");
+    }
     {   // Factored::MDP wrappers over Q-function rules that depend on the state
         reseed();
         F::State S(2); S[0] = 2; S[1] = (size_t)rng.range(2, 3);
@@ -778,6 +813,7 @@ static void witness(long idx) {
         M::QFunction Q(2, 3); Q << B, B + G, B + 2 * G,   2 * g, g, 0.0;
         emit_greedy_mdp(Q, 2);
         emit_softmax_bandit({0.0, g, 2 * g}, 0.0, 2);
+        emit_softmax_mdp(Q, 0.0, 2);
         break; }
     case 7: { // ties that hold only through the RELATIVE tolerance (|q| = 1.3e8, gap 1.5e-5): all three members must use the same test
         const double B = std::ldexp(1.0, 27), d = std::ldexp(1.0, -16);
